@@ -78,6 +78,19 @@ def adversarial(tier="thorough"):
             ("toml", b"a = " + b"9" * 100000), ("toml", b"a" * 100000 + b" = 1"), ("toml", b'a = """' + b"\\" * 99999),
             ("toml", corpus.toml_dotted_nest(8)), ("toml", corpus.toml_dotted_nest(20)), ("toml", corpus.toml_dotted_nest(60)),
             ("yaml", b"a" * 200000), ("yaml", b"\xef\xbb\xbf" * 1000), ("yaml", b"\xff\xfe" + b"a\x00" * 5000), ("yaml", b"\x00\x00\xfe\xff" + b"\x00\x11\x00\x00" * 10)]
+    # every ill-formed one- and two-unit class of UTF-16 and UTF-32 YAML, both byte orders, with and without a byte order mark
+    # (the debug binary has overflow checks: arithmetic on surrogates must not be reached with anything but a valid pair)
+    for order in ("big", "little"):
+        for bom in (True, False):
+            def enc(units, width, order=order, bom=bom):
+                return b"".join(u.to_bytes(width, order) for u in ([0xFEFF] if bom else []) + [ord(c) for c in "a: "] + units + [0x0A])
+            for bad in ([0xDC00], [0xD800], [0xD800, 0x41], [0xDC00, 0xD800], [0xD800, 0xD800], [0xDBFF, 0xDBFF], [0xDFFF, 0x41], [0xD83D, 0xD83D, 0xDE00],
+                        [0xDBFF, 0xDFFF], [0xD800, 0xDC00], [0xDFFF, 0xDFFF]):
+                out.append(("yaml", enc(bad, 2)))
+            for bad in ([0xD800], [0xDFFF], [0x110000], [0xFFFFFFFF], [0x7FFFFFFF], [0x10FFFF]):
+                out.append(("yaml", enc(bad, 4)))
+            out.append(("yaml", enc([0x41], 2)[:-1]))
+            out.append(("yaml", enc([0x41], 4)[:-3]))
     # failures whose message quotes thousands of multi-byte characters, at every alignment (a message that is cut, wrapped or
     # measured in bytes must still be cut at a character)
     for ch in ("\u00e9", "\u20ac", "\U0001f600"):
